@@ -823,6 +823,22 @@ func (g *gen) literalNoVar(t *ast.Type, depth int, constOnly bool) string {
 		switch def.Kind {
 		case ast.Enum:
 			return def.EnumValues[g.pick(len(def.EnumValues), "enum")].Name
+		case ast.Scalar:
+			if !def.BuiltIn && def.Name != "Upload" && depth < 2 && g.chance(30, "scalarlit") {
+				// the value of a custom scalar is free-form: a list or object literal, possibly with a variable inside
+				inner := func() string {
+					if !constOnly && g.o.Variables && !g.o.Avoid["op.variableInCustomScalarLiteral"] && g.chance(50, "scalarvar") {
+						it := &ast.Type{NamedType: []string{"Int", "String", "Boolean"}[g.pick(3, "scalarvartype")]}
+						g.label("variableInCustomScalarLiteral")
+						return "$" + g.variableFor(it.NamedType, it).name
+					}
+					return []string{"1", "\"s\"", "true", "null", "[2, 3]", "{k: 1}"}[g.pick(6, "scalaratom")]
+				}
+				if g.chance(50, "scalarlist") {
+					return "[" + inner() + ", " + inner() + "]"
+				}
+				return "{a: " + inner() + ", b: [" + inner() + "]}"
+			}
 		case ast.InputObject:
 			var parts []string
 			for _, f := range def.Fields {
